@@ -44,6 +44,10 @@ struct SKey {
     /// to ignore (IPv4 DSCP/ECN and TTL, IPv6 traffic class / flow label / hop limit, the reserved byte and the two
     /// reserved bits of the IPv6 fragment header (RFC 8200 4.5: "ignored on reception"), VLAN PCP/DEI)
     jit: bool,
+    /// IPv4 only: every fragment carries a 12 byte authentication header (protocol field 51, AH next header = `proto`).
+    /// `SlicedPacket` presents the bytes behind it as IP payload with `proto` as protocol number, and that is what the
+    /// pool is documented to work on
+    ah: bool,
 }
 
 #[derive(Clone, Copy, Debug, PartialEq, Eq)]
@@ -66,7 +70,7 @@ fn csum16(h: &[u8]) -> u16 {
 /// IPv4 header (20 bytes, no options) + payload
 fn ipv4_bytes(k: &SKey, off_units: u16, mf: bool, payload: &[u8]) -> Vec<u8> {
     assert!(!k.v6 && off_units < 0x2000);
-    let tl = (20 + payload.len()) as u16;
+    let tl = (20 + if k.ah { 12 } else { 0 } + payload.len()) as u16;
     let j = if k.jit { (off_units as u8).wrapping_mul(5).wrapping_add(if mf { 0 } else { 0x83 }) } else { 0 };
     let mut h = vec![0x45, j];
     h.extend_from_slice(&tl.to_be_bytes());
@@ -74,12 +78,16 @@ fn ipv4_bytes(k: &SKey, off_units: u16, mf: bool, payload: &[u8]) -> Vec<u8> {
     let fo = off_units | if mf { 0x2000 } else { 0 };
     h.extend_from_slice(&fo.to_be_bytes());
     h.push(64 - (j & 31));
-    h.push(k.proto);
+    h.push(if k.ah { 51 } else { k.proto });
     h.extend_from_slice(&[0, 0]);
     h.extend_from_slice(&k.src);
     h.extend_from_slice(&k.dst);
     let c = csum16(&h);
     h[10..12].copy_from_slice(&c.to_be_bytes());
+    if k.ah {
+        // next header, payload len (in 4 byte units - 2), reserved, SPI, sequence number; no ICV
+        h.extend_from_slice(&[k.proto, 1, 0, 0, 0, 0, 1, 0, 0, 0, 0, off_units as u8]);
+    }
     h.extend_from_slice(payload);
     h
 }
@@ -351,7 +359,7 @@ fn compositions(units: usize, k: usize) -> Vec<Vec<usize>> {
     out
 }
 
-const DISCR: [&str; 8] = ["ident", "proto", "vlan-outer", "vlan-inner", "chan", "src", "dst", "v6-ident-hi"];
+const DISCR: [&str; 9] = ["ident", "proto", "vlan-outer", "vlan-inner", "chan", "src", "dst", "v6-ident-hi", "proto-behind-ah"];
 
 #[derive(Clone, Debug, PartialEq)]
 enum Group {
@@ -378,14 +386,14 @@ thread_local! {
 }
 
 fn key_a() -> SKey {
-    SKey { vlans: vec![], v6: false, src: vec![10, 0, 0, 1], dst: vec![10, 0, 0, 2], ident: 0x1234, proto: 17, chan: 1, jit: JIT.with(|j| j.get()) }
+    SKey { vlans: vec![], v6: false, src: vec![10, 0, 0, 1], dst: vec![10, 0, 0, 2], ident: 0x1234, proto: 17, chan: 1, jit: JIT.with(|j| j.get()), ah: false }
 }
 fn key_c() -> SKey {
     let mut s = vec![0xfd, 0, 0, 0, 0, 0, 0, 0, 0, 0, 0, 0, 0, 0, 0, 1];
     let mut d = s.clone();
     d[15] = 2;
     s[14] = 0;
-    SKey { vlans: vec![], v6: true, src: s, dst: d, ident: 0x0001_1234, proto: 17, chan: 1, jit: JIT.with(|j| j.get()) }
+    SKey { vlans: vec![], v6: true, src: s, dst: d, ident: 0x0001_1234, proto: 17, chan: 1, jit: JIT.with(|j| j.get()), ah: false }
 }
 
 fn parts_bytes(units: &[usize], len: usize) -> Vec<usize> {
@@ -413,8 +421,12 @@ fn build_scn(d: &Desc, tier: Tier) -> Scn {
                 "chan" | "vlan-inner" => vec![5, 7],
                 _ => vec![],
             };
+            if dn == "proto-behind-ah" {
+                ka.ah = true;
+            }
             let mut kb = ka.clone();
             match dn {
+                "proto-behind-ah" => kb.proto = 6,
                 "ident" => kb.ident = 0x1235,
                 "proto" => kb.proto = 6,
                 "vlan-outer" => kb.vlans = vec![6],
@@ -437,6 +449,15 @@ fn build_scn(d: &Desc, tier: Tier) -> Scn {
             s.push(Ev::ReturnBuf, "return_buf(oldest, filled 0xEE)".into(), "return-buf".into(), 2);
             s.push(Ev::Evict(None), "retain(|_| false)".into(), "evict-all".into(), 1);
             s.push(Ev::Evict(Some(1)), "retain(|t| t != B)".into(), "evict-B".into(), 1);
+            if dn == "proto-behind-ah" && !ah_premise_holds(&s) {
+                // the scenario is defined relative to what slicing hands to the pool; slicing itself is C03's subject
+                s.evs.clear();
+                s.names.clear();
+                s.kinds.clear();
+                s.mult.clear();
+                s.dgs.clear();
+                s.name.push_str(":SKIPPED(SlicedPacket does not present the bytes behind the authentication header as IP payload)");
+            }
             finish(s)
         }
         Group::V6 => {
@@ -471,6 +492,25 @@ fn build_scn(d: &Desc, tier: Tier) -> Scn {
             finish(s)
         }
     }
+}
+
+/// premise of the "proto-behind-ah" scenarios: `SlicedPacket` presents, for every fragment, the bytes behind the
+/// authentication header as IP payload and the AH's next header as its protocol number
+fn ah_premise_holds(s: &Scn) -> bool {
+    s.evs.iter().all(|e| match e {
+        Ev::Pkt(p) => guarded(|| {
+            let sl = match p.link {
+                Link::Eth => SlicedPacket::from_ethernet(&p.bytes),
+                Link::Ip => SlicedPacket::from_ip(&p.bytes),
+            };
+            match sl.as_ref().ok().and_then(|x| x.ip_payload()) {
+                Some(ip) => ip.payload == &p.payload[..] && ip.ip_number.0 == p.key.proto && ip.fragmented,
+                None => false,
+            }
+        })
+        .unwrap_or(false),
+        _ => true,
+    })
 }
 
 fn descs(tier: Tier) -> Vec<Desc> {
@@ -1675,7 +1715,7 @@ impl Check for C11 {
             "bytes of IpDefragBuf::data outside the filled ranges are uninitialised capacity (set_len) and are excluded from the canonical state; so are Vec capacities, the content of pooled buffers and the HashMap layout (none of them is observable through the API unless the oracle fires)".into(),
             "visited states are stored as 128-bit hashes (FNV-1a + SipHash) of the canonical state bytes".into(),
             "reachability keys that describe the arrival order (in-order / reordered / duplicate / interleaved) are computed from the DFS path that first reaches a state".into(),
-            "IPv4 fragments behind an authentication header and IPv6 extension headers behind the fragment header are outside the alphabet; overlapping fragments always carry the same byte for the same position".into(),
+            "IPv6 extension headers behind the fragment header are outside the alphabet; IPv4 behind an authentication header only in the form `every fragment carries the AH` (scenarios proto-behind-ah), which is what SlicedPacket hands to the pool as IP payload + protocol number - if slicing does not present it that way the scenarios skip themselves; overlapping fragments always carry the same byte for the same position".into(),
         ]
     }
     fn units(&self, tier: Tier) -> u64 {
